@@ -85,3 +85,50 @@ MERGE_ASSUMPTIONS = [
     "not constant on an order type abort the run (exit 2) and are retried at R+1",
     "a self-loop (u == v) is the sub-case in which both key orientations coincide",
 ]
+
+
+def ctor(repo: Repo, tier):
+    from sa.ctor_check import CtorChecker
+    key = ("ctor", repo.digest(), tier)
+    if key not in _cache:
+        def make(R):
+            cc = CtorChecker(repo, R=R, max_n=2 if tier == "quick" else 3)
+            for cls in CLASSES:
+                cc.check_time_slice(cls)
+                cc.check_generate_snapshots(cls)
+                cc.check_node_link_data(cls)
+            cc.check_conversion("DynGraph", "to_directed", "DynDiGraph")
+            cc.check_conversion("DynDiGraph", "to_undirected", "DynGraph")
+            from sa.ctor_check import check_event_replay, check_generate_interactions
+            for cls in CLASSES:
+                check_event_replay(cc, cls)
+                check_generate_interactions(cc, cls)
+            return cc
+        cc, R = escalate(make, tier)
+        cc.R = R
+        _cache[key] = cc
+    return _cache[key]
+
+
+def take_ctor(rep: Report, cc, prefixes, rule="O.constructors"):
+    n = 0
+    for k, f in sorted(cc.findings.items()):
+        if not any(f["clause"].startswith(p) for p in prefixes):
+            continue
+        n += 1
+        rep.finding("%s/%s" % (rule, f["clause"]), f["construct"], f["key"],
+                    f["message"] + (" [%d abstract runs]" % f["count"]), line=f["line"], witness=f["witness"])
+    rep.stats["abstract_runs"] = rep.stats.get("abstract_runs", 0) + cc.n_runs
+    rep.stats["order_types"] = rep.stats.get("order_types", 0) + cc.n_ordertypes
+    rep.stats["resolution_R"] = cc.R
+    rep.stats["exhaustive"] = True
+    return n
+
+
+CTOR_ASSUMPTIONS = [
+    "source graph: one generic pair (U, V) with a canonical timeline of 1..2 (thorough: 3) intervals - the loop body of "
+    "every constructor is the same for each pair and each interval, so first/last(/middle) cover the roles an interval can play",
+    "the per-pair enumeration used by the constructors (interactions_iter) is decided under C02; for DynDiGraph it is subject to "
+    "the known finding 'cross-direction de-duplication'",
+    "add_interaction applied to the recorded (start, vanishing time) arguments is decided under C01/C03",
+]
